@@ -332,7 +332,7 @@ func TestC09Binary(t *testing.T) {
 				connSeq++
 				a, err := dialWS(p.addr, nodeIdent(h), connSeq)
 				if err != nil {
-					fail("dial: %v", err)
+					fail("[setup failed] dial: %v", err)
 				}
 				ctx, cancel := context.WithTimeout(ctxAll, 10*time.Second)
 				err = a.connectHost(ctx)
